@@ -80,7 +80,7 @@ def work(args):
         if len(agg['samples']) < 2 and res.status == 'ok' and 3 <= len(res.ops) <= 9:
             agg['samples'].append({'seed': s, 'ops': res.ops})
         if res.status == 'ok' and engine.FOCUS[focus].get('variants'):
-            for vi, vops in enumerate(engine.fault_variants(res)):
+            for vi, vops in enumerate(engine.fault_variants(res, 60 if (profile or {}).get('tier') == 'thorough' else 24)):
                 r2 = engine.run(focus, ops_list=vops, profile=res.profile)
                 agg['stats']['variants.run'] += 1
                 agg['stats'].update(r2.stats)
